@@ -155,7 +155,7 @@ def classes (s : Schema) : List String :=
 def natList (s : String) : Option (List Nat) :=
   if s == "-" then some [] else (s.splitOn ",").mapM (·.toNat?)
 
-/-- `partner x xs ys`: the tag proved to collide by `Props.C14.C14_finding_collision_any`;
+/-- `partner x xs ys`: the tag proved to collide by `Props.C14.C14_key_collision_any`;
     `hash xs`: `foldTags 0 xs` -/
 def stepAux (ws : List String) : Option String :=
   match ws with
